@@ -126,6 +126,14 @@ pub fn main() -> i32 {
             return 2;
         }
     };
+    // replay files of earlier runs of this property are stale
+    if let Ok(rd) = fs::read_dir(format!("{}/replays", verif_dir())) {
+        for e in rd.flatten() {
+            if e.file_name().to_string_lossy().starts_with(&format!("{}-", id)) {
+                fs::remove_file(e.path()).ok();
+            }
+        }
+    }
     let ctx = Ctx::new(&id, tier, seed as u64);
     eprintln!("[{}] tier={} repo={} tree_hash={}", id, tier.name(), env!("VERIF_REPO"), env!("VERIF_REPO_HASH"));
     util::on_big_stack(|| (prop.run)(&ctx));
